@@ -563,7 +563,7 @@ func codecLayouts(p *Prog, r *Report, pfx string) {
 			if callIsFunc(c, "frame", "NewRawCodec") || callIsFunc(c, "frame", "NewRawCodecWithCompression") {
 				for _, a := range c.Common().Args {
 					for _, o := range origins(a) {
-						if ld, ok := o.(*ssa.UnOp); ok && ld.X == g {
+						if ld, ok := o.(*ssa.UnOp); ok && sameGlobal(ld.X, g) {
 							uses++
 						}
 					}
